@@ -121,7 +121,10 @@ pub fn run_case_hist(case: &Case, seed: u64, w: &mut dyn Write) {
                 _ => run_one_p::<&str, E, _>(cache.get(), m, s),
             };
             steps += 1;
-            if got != fresh[i] {
+            // a parser value that cannot be used at all (panics for a reason other than the documented debug assertions) is
+            // not "the result a freshly constructed parser gives" either: e.g. a clone that died with the value it was cloned from
+            let unusable = got.starts_with("P ") && !got.contains("no-progress") && !got.contains("todo");
+            if got != fresh[i] || unusable {
                 diffs += 1;
                 if first.is_empty() {
                     first = format!("wrapper={} history={:?} step-input={} got=[{}] fresh=[{}]", wk, h, i, got, fresh[i]);
@@ -194,6 +197,97 @@ fn run_static(p: &DynP, input: &'static str) -> String {
     s
 }
 
+// ------------------------------------------------------------------------------------------------
+// statically dispatched parser vs the same parser behind every dynamic wrapper, in value and in check-only positions
+
+fn emitter() -> impl Parser<'static, &'static str, Val, SE> + Clone + Send + Sync {
+    one_of::<_, &'static str, SE>("ab").map(|c: char| Val::Tok(c as u32)).validate(|v, e, em| {
+        if v == Val::Tok('b' as u32) {
+            em.emit(Rich::custom(e.span(), "m8"));
+        }
+        v
+    })
+}
+
+fn positions<P>(name: &str, q: P, out: &mut Vec<(String, String)>)
+where
+    P: Parser<'static, &'static str, Val, SE> + Clone,
+{
+    let pool: [&'static str; 8] = ["", "a", "b", "ab", "ba", "bb", "bx", "abb"];
+    fn show<O>(r: chumsky::ParseResult<O, Rich<'static, char, Sp>>, f: impl Fn(O) -> String) -> String {
+        let (o, errs) = r.into_output_errors();
+        let mut s = o.map(f).unwrap_or_else(|| "none".to_string());
+        for e in errs {
+            s.push('|');
+            <Rich<'static, char, Sp> as HErr<'static, &'static str>>::render(&e, &mut s);
+        }
+        s
+    }
+    let val = |v: Val| {
+        let mut s = String::new();
+        v.render(&mut s);
+        s
+    };
+    for inp in pool {
+        let mut st = Insp::default();
+        out.push((format!("{name}/value/{inp}"), show(q.clone().repeated().collect::<Vec<_>>().map(Val::list).parse_with_state(inp, &mut st), val)));
+        out.push((format!("{name}/to_slice/{inp}"), show(q.clone().repeated().to_slice().parse_with_state(inp, &mut st), |s: &str| s.to_string())));
+        out.push((format!("{name}/ignored/{inp}"), show(q.clone().repeated().ignored().parse_with_state(inp, &mut st), |_| "u".to_string())));
+        out.push((format!("{name}/then_ignore/{inp}"), show(any().or_not().rewind().then_ignore(q.clone().repeated()).parse_with_state(inp, &mut st), |_| "u".to_string())));
+        out.push((format!("{name}/delim/{inp}"), show(empty().delimited_by(q.clone().or_not(), q.clone().repeated()).parse_with_state(inp, &mut st), |_| "u".to_string())));
+        out.push((format!("{name}/check/{inp}"), show(q.clone().repeated().collect::<Vec<_>>().check_with_state(inp, &mut st), |_| "u".to_string())));
+    }
+}
+
+pub fn run_wrappers(w: &mut dyn Write) {
+    let mut base = Vec::new();
+    positions("static", emitter(), &mut base);
+    let mut variants: Vec<(&str, Vec<(String, String)>)> = Vec::new();
+    macro_rules! variant {
+        ($name:expr, $p:expr) => {{
+            let mut v = Vec::new();
+            positions("static", $p, &mut v);
+            variants.push(($name, v));
+        }};
+    }
+    variant!("boxed", emitter().boxed());
+    variant!("boxed-clone", emitter().boxed().clone());
+    variant!("boxed-boxed", emitter().boxed().boxed());
+    let arc0: Arc<dyn Parser<'static, &'static str, Val, SE> + Send + Sync> = Arc::new(emitter());
+    let arc: &'static Arc<dyn Parser<'static, &'static str, Val, SE> + Send + Sync> = Box::leak(Box::new(arc0));
+    let arc_dyn: &'static (dyn Parser<'static, &'static str, Val, SE> + Send + Sync) = &**arc;
+    variant!("arc-dyn", arc_dyn);
+    let bx0: Box<dyn Parser<'static, &'static str, Val, SE>> = Box::new(emitter());
+    let bx: &'static Box<dyn Parser<'static, &'static str, Val, SE>> = Box::leak(Box::new(bx0));
+    let box_dyn: &'static dyn Parser<'static, &'static str, Val, SE> = &**bx;
+    variant!("box-dyn", box_dyn);
+    variant!("rc", Rc::new(emitter()));
+    variant!("box", Rc::new(Box::new(emitter())));
+    variant!("recursive", recursive(|_| emitter()));
+    variant!("either", either::Either::<_, chumsky::primitive::Todo<&'static str, Val, SE>>::Left(emitter()));
+    {
+        let e = emitter();
+        let mut v = Vec::new();
+        // `&P` is a parser too; it is not `Clone`-able into an owned value, so it goes through `Rc<&'static P>`-free positions
+        let leaked: &'static _ = Box::leak(Box::new(e));
+        positions("static", leaked, &mut v);
+        variants.push(("ref", v));
+    }
+    for (name, v) in variants {
+        let mut diffs = 0;
+        let mut first = String::new();
+        for ((k, a), (_, b)) in base.iter().zip(v.iter()) {
+            if a != b {
+                diffs += 1;
+                if first.is_empty() {
+                    first = format!("{k}: static=[{a}] wrapped=[{b}]");
+                }
+            }
+        }
+        let _ = writeln!(w, "W-{} H steps={} diffs={} wrappers=1 {}", name, base.len(), diffs, first);
+    }
+}
+
 pub fn run_threads(nthreads: usize, rounds: usize, w: &mut dyn Write) {
     let pool: Vec<&'static str> = vec!["", "a", "a,b", "a,b,", "ab", "abc;", "::", "(ab)", "(", "x", "a,", "(aab", "é", "abc"];
     for (name, p) in static_parsers() {
@@ -249,6 +343,10 @@ pub fn main() {
             Err(_) => break,
         };
         if line.trim().is_empty() {
+            continue;
+        }
+        if line.trim() == "WRAPPERS" {
+            run_wrappers(&mut w);
             continue;
         }
         if let Some(rest) = line.strip_prefix("THREADS ") {
